@@ -142,6 +142,15 @@ def advanced_nonadjacent(items):
     return adv[-1] - adv[0] + 1 != len(adv)
 
 
+def none_with_dask_indexer(items):
+    return any(it["k"] == "none" for it in items) and any(it["k"] in FANCY and it.get("as") == "da" for it in items)
+
+
+def none_with_np_indexer(items):
+    """None next to a list / NumPy integer or boolean 1-d indexer (slice_with_newaxes rewrites the take graph)."""
+    return any(it["k"] == "none" for it in items) and any(it["k"] in ("ints", "bools") and it["as"] != "da" for it in items)
+
+
 def fancy_kind(items):
     for it in items:
         if it["k"] in FANCY:
@@ -194,8 +203,35 @@ def index_nontrivial(items, shape, chunks):
     return False
 
 
+def no_multiblock_len1(arr):
+    """Collapse the chunking of length-1 axes to a single block.  A length-1 axis split into several blocks needs an
+    explicit zero-size chunk ((0, 1) / (1, 0)); chunk unification mistakes such an axis for a broadcast axis.  That
+    root cause is C19's listed finding `broadcast-multiblock-len1-axis`; it resurfaces wherever indexing/assignment
+    go through elemwise/blockwise (x[dask_mask], x[mask] = v), so this input class is left to C19."""
+    arr = dict(arr)
+    arr["chunks"] = [[1] if n == 1 else list(c) for n, c in zip(arr["shape"], arr["chunks"])]
+    return arr
+
+
 # --------------------------------------------------------------------------
 # strategies (specs only)
+
+
+@st.composite
+def array_st(draw, zero_chunk_pct=10, **kw):
+    """Array spec whose chunking has explicit zero-size chunks in ~zero_chunk_pct % of the cases (a separate stratum:
+    ordinary chunkings must dominate), never on a length-1 axis (see no_multiblock_len1)."""
+    arr = draw(A.array_spec(allow_zero_chunks=False, **kw))
+    if arr["shape"] and draw(st.integers(0, 99)) < zero_chunk_pct:
+        chunks = [list(c) for c in arr["chunks"]]
+        axes = draw(st.lists(st.integers(0, len(chunks) - 1), min_size=1, max_size=2))
+        for ax in axes:
+            if arr["shape"][ax] < 2:
+                continue  # (0, 0) on an empty axis / (0, 1) on a length-1 axis: doubly degenerate, left out
+            pos = draw(st.integers(0, len(chunks[ax])))
+            chunks[ax] = chunks[ax][:pos] + [0] + chunks[ax][pos:]
+        arr["chunks"] = chunks
+    return no_multiblock_len1(arr)
 
 
 def slice_item_st(n, wide=True):
@@ -291,21 +327,20 @@ def mask_item_st(draw, shape, chunks, kinds=("np", "da")):
 
 
 def add_structure(draw, items, allow_none=True, allow_ellipsis=True):
-    """Drop trailing full slices, replace a run of full slices by Ellipsis,
-    insert None items."""
+    """Replace a run of full slices by Ellipsis, or drop trailing full slices; insert None items.  Every remaining
+    item keeps the axis it was generated for."""
     full = {"k": "slice", "v": [None, None, None]}
     items = list(items)
-    if draw(st.booleans()):
-        while items and items[-1] == full:
-            items.pop()
     if allow_ellipsis and draw(st.integers(0, 3)) == 0:
-        # choose a (possibly empty) run of full slices to replace
+        # choose a (possibly empty) run of full slices to replace; the items after it stay aligned to the last axes
         pos = draw(st.integers(0, len(items)))
         end = pos
         while end < len(items) and items[end] == full and draw(st.booleans()):
             end += 1
-        # an Ellipsis anywhere is legal as long as explicit items <= ndim
         items = items[:pos] + [{"k": "ellipsis"}] + items[end:]
+    elif draw(st.booleans()):
+        while items and items[-1] == full:
+            items.pop()
     if allow_none:
         k = draw(st.sampled_from([0, 0, 0, 1, 1, 2]))
         for _ in range(k):
